@@ -2,6 +2,7 @@ import Monorail.Driver.C10
 import Monorail.Driver.C01
 import Monorail.Driver.C03
 import Monorail.Driver.C11
+import Monorail.Driver.Exec
 open Lean Monorail.Driver
 
 def dispatch (j : Json) : Except String Json := do
@@ -11,6 +12,8 @@ def dispatch (j : Json) : Except String Json := do
   | "c01" => handleC01 j
   | "dag" => handleDag j
   | "c11" => handleC11 j
+  | "exec" => handleExec j
+  | "execcheck" => handleExecCheck j
   | "groups" => handleGroups j
   | "ping" => pure (Json.mkObj [("pong", true)])
   | _ => throw s!"unknown op {op}"
